@@ -449,7 +449,10 @@ class GeminiServerProtocol(asyncio.Protocol):
             )
 
     def _handle_middleware_result(
-        self, task: asyncio.Task, request: GeminiRequest, client_ip: str
+        self,
+        task: asyncio.Task,
+        request: GeminiRequest | TitanRequest,
+        client_ip: str,
     ) -> None:
         """Handle the result of middleware processing.
 
@@ -477,7 +480,10 @@ class GeminiServerProtocol(asyncio.Protocol):
                 return
 
             # Middleware allowed request - continue routing
-            self._route_request(request, client_ip)
+            if isinstance(request, TitanRequest):
+                self._start_titan_upload(client_ip)
+            else:
+                self._route_request(request, client_ip)
 
         except Exception as e:
             logger.error(
@@ -592,6 +598,41 @@ class GeminiServerProtocol(asyncio.Protocol):
             return
 
         client_ip = self.peer_name[0] if self.peer_name else "unknown"
+
+        # Process through middleware if present (same chain as Gemini requests)
+        if self.middleware:
+            titan_request = self.titan_request
+            try:
+                task = asyncio.create_task(
+                    self.middleware.process_request(
+                        titan_request.parsed_url.normalized,
+                        client_ip,
+                        titan_request.client_cert_fingerprint,
+                    )
+                )
+                task.add_done_callback(
+                    lambda t: self._handle_middleware_result(
+                        t, titan_request, client_ip
+                    )
+                )
+            except RuntimeError:
+                # No event loop running: the upload handler could not run either
+                self._send_error_response(
+                    StatusCode.TEMPORARY_FAILURE,
+                    "Server error: upload handler requires event loop",
+                )
+            return
+
+        self._start_titan_upload(client_ip)
+
+    def _start_titan_upload(self, client_ip: str) -> None:
+        """Start the upload handler for the (middleware-approved) Titan request.
+
+        Args:
+            client_ip: The client's IP address.
+        """
+        if not self.upload_handler or not self.titan_request:
+            return
 
         try:
             # Create async task for upload handler
